@@ -385,20 +385,32 @@ impl<const N: usize> std::io::Write for Sink<N> {
     fn write(&mut self, d: &[u8]) -> std::io::Result<usize> { self.put(d); Ok(d.len()) }
     fn write_all(&mut self, d: &[u8]) -> std::io::Result<()> { self.put(d); Ok(()) }
     fn flush(&mut self) -> std::io::Result<()> { Ok(()) }
+    fn write_fmt(&mut self, _args: std::fmt::Arguments<'_>) -> std::io::Result<()> {
+        // canned text only: the real formatter lives in FmtSink, so that core::fmt is not even compiled into these harnesses
+        assert!(self.k < 8, "verif-infra: canned write! outputs exhausted");
+        let c = self.canned[self.k];
+        self.k += 1;
+        self.put(c);
+        Ok(())
+    }
+}
+
+/// Sink that runs the real formatter (only used by the concrete header family).
+pub struct FmtSink<const N: usize>(pub Sink<N>);
+impl<const N: usize> FmtSink<N> {
+    pub fn new() -> Self { FmtSink(Sink::new()) }
+    pub fn bytes(&self) -> &[u8] { self.0.bytes() }
+}
+impl<const N: usize> std::io::Write for FmtSink<N> {
+    fn write(&mut self, d: &[u8]) -> std::io::Result<usize> { self.0.put(d); Ok(d.len()) }
+    fn write_all(&mut self, d: &[u8]) -> std::io::Result<()> { self.0.put(d); Ok(()) }
+    fn flush(&mut self) -> std::io::Result<()> { Ok(()) }
     fn write_fmt(&mut self, args: std::fmt::Arguments<'_>) -> std::io::Result<()> {
-        if self.k < 8 {
-            let c = self.canned[self.k];
-            self.k += 1;
-            self.put(c);
-            Ok(())
-        } else {
-            // real formatting (only used by the concrete header family)
-            struct A<'a, const M: usize>(&'a mut Sink<M>);
-            impl<'a, const M: usize> std::fmt::Write for A<'a, M> { fn write_str(&mut self, s: &str) -> std::fmt::Result { self.0.put(s.as_bytes()); Ok(()) } }
-            // no io::Error is ever constructed here: its recursive drop glue alone exhausts the solver's memory
-            if std::fmt::write(&mut A(self), args).is_err() { panic!("verif-infra: formatting error"); }
-            Ok(())
-        }
+        struct A<'a, const M: usize>(&'a mut Sink<M>);
+        impl<'a, const M: usize> std::fmt::Write for A<'a, M> { fn write_str(&mut self, s: &str) -> std::fmt::Result { self.0.put(s.as_bytes()); Ok(()) } }
+        // no io::Error is ever constructed here: its recursive drop glue alone exhausts the solver's memory
+        if std::fmt::write(&mut A(&mut self.0), args).is_err() { panic!("verif-infra: formatting error"); }
+        Ok(())
     }
 }
 
@@ -412,11 +424,11 @@ pub fn t_write_header(old_start: isize, new_start: isize, nold: usize, nnew: usi
     while i < nold { h.remove.content.push(&l[..]); i += 1; }
     i = 0;
     while i < nnew { h.add.content.push(&l[..]); i += 1; }
-    let mut out = Sink::<48>::new();
+    let mut out = FmtSink::<48>::new();
     let r = h.write_header_to(&mut out);
     assert!(r.is_ok());
     std::mem::forget(r);
-    out.put(b"\n");
+    out.0.put(b"\n");
     let (rest, hh) = match parse_hunk_header(out.bytes()) { Ok(x) => x, Err(e) => { std::mem::forget(e); assert!(false, "written hunk header is rejected"); return; } };
     assert!(rest.is_empty());
     assert!(hh.remove_count == nold && hh.add_count == nnew, "counts changed");
@@ -484,17 +496,26 @@ pub fn t_write_body<const K: usize>(ops: [u8; K], old_start: isize, new_start: i
 pub fn t_write_scan<const KO: usize, const KN: usize>(hdr: &'static [u8]) {
     let ro: [u8; KO] = kani::any();
     let rn: [u8; KN] = kani::any();
+    // flat buffers (line i = bytes 2i, 2i+1): with nested arrays `[[u8; 2]; K]`, K >= 2, CBMC 6.11 reads a stale byte through
+    // the slice pointer (seen in a full trace; the native run of the same values passes), see DESIGN.md 11.4
+    let mut fo = [b'\n'; 6];
+    let mut fnw = [b'\n'; 6];
+    assert!(KO <= 3 && KN <= 3, "verif-infra: at most 3 lines per side");
+    let mut i = 0;
+    while i < KO { fo[2 * i] = alpha(ro[i]); i += 1; }
+    i = 0;
+    while i < KN { fnw[2 * i] = alpha(rn[i]); i += 1; }
     let mut lo = [[0u8; 2]; KO];
     let mut ln = [[0u8; 2]; KN];
-    let mut i = 0;
-    while i < KO { lo[i] = [alpha(ro[i]), b'\n']; i += 1; }
     i = 0;
-    while i < KN { ln[i] = [alpha(rn[i]), b'\n']; i += 1; }
+    while i < KO { lo[i] = [fo[2 * i], b'\n']; i += 1; }
+    i = 0;
+    while i < KN { ln[i] = [fnw[2 * i], b'\n']; i += 1; }
     let mut h: TextHunk = Hunk::new(3, 3, &b""[..]);
     i = 0;
-    while i < KO { h.remove.content.push(&lo[i][..]); i += 1; }
+    while i < KO { h.remove.content.push(&fo[2 * i..2 * i + 2]); i += 1; }
     i = 0;
-    while i < KN { h.add.content.push(&ln[i][..]); i += 1; }
+    while i < KN { h.add.content.push(&fnw[2 * i..2 * i + 2]); i += 1; }
     let mut out = Sink::<64>::with_canned([hdr, &[], &[], &[], &[], &[], &[], &[]]);
     let r = h.write_to(&mut out);
     assert!(r.is_ok());
@@ -532,7 +553,7 @@ pub fn t_write_scan<const KO: usize, const KN: usize>(hdr: &'static [u8]) {
 pub fn t_write_file(text: &[u8]) {
     let p = match parse_patch(text, 0, false) { Ok(p) => p, Err(e) => { std::mem::forget(e); assert!(false, "verif-infra: template rejected"); return; } };
     assert!(p.file_patches.len() == 1);
-    let mut out = Sink::<400>::new();
+    let mut out = FmtSink::<400>::new();
     p.file_patches[0].write_to(&mut out).unwrap();
     let q = match parse_patch(out.bytes(), 0, false) { Ok(q) => q, Err(e) => { std::mem::forget(e); assert!(false, "written patch is rejected by the parser"); return; } };
     assert!(q.file_patches.len() == 1, "written patch describes a different number of file patches");
@@ -545,7 +566,7 @@ pub fn t_write_file(text: &[u8]) {
     assert!(a.new_permissions() == b.new_permissions(), "new mode changed");
     assert!(a.old_hash() == b.old_hash() && a.new_hash() == b.new_hash(), "hashes changed");
     assert!(a.hunks().len() == b.hunks().len(), "hunk count changed");
-    let mut out2 = Sink::<400>::new();
+    let mut out2 = FmtSink::<400>::new();
     b.write_to(&mut out2).unwrap();
     assert!(out2.bytes() == out.bytes(), "writing is not a fixed point");
     kani::cover!(true, "file round trip done");
